@@ -9,6 +9,7 @@ from optlang.exceptions import SolverError
 
 from ..core import Configuration, Gene, Model, Reaction
 from ..util import ProcessPool
+from ..util import _verif
 from ..util import solver as sutil
 from .moma import add_moma
 from .room import add_room
@@ -66,10 +67,12 @@ def _reaction_deletion(
         the solver status.
 
     """
+    _verif.point("del.begin", ids=reaction_ids, model=model)
     with model:
         for rxn_id in reaction_ids:
             model.reactions.get_by_id(rxn_id).knock_out()
         growth, status = _get_growth(model)
+    _verif.point("del.end", ids=reaction_ids, growth=growth, status=status, model=model)
     return reaction_ids, growth, status
 
 
@@ -110,10 +113,12 @@ def _gene_deletion(model: Model, gene_ids: List[str]) -> Tuple[List[str], float,
         the solver status.
 
     """
+    _verif.point("del.begin", ids=gene_ids, model=model)
     with model:
         for gene_id in gene_ids:
             model.genes.get_by_id(gene_id).knock_out()
         growth, status = _get_growth(model)
+    _verif.point("del.end", ids=gene_ids, growth=growth, status=status, model=model)
     return gene_ids, growth, status
 
 
